@@ -33,7 +33,7 @@ TOL = 1.0e-7  # bilin_inv default
 
 
 class PostBroken(Exception):
-    pass
+    _vmon_target = True  # a broken contract is a verdict about the code under test, also when it fires inside a ladim run
 
 
 _st: dict[str, Any] = dict(installed=False, n=0, why="")
